@@ -1,6 +1,7 @@
 package jschema
 
 import (
+	"github.com/jsightapi/jsight-schema-core/notations/jschema/ischema"
 	"github.com/jsightapi/jsight-schema-core/zzverif"
 	"github.com/jsightapi/jsight-schema-core/zzverif/zzjson"
 )
@@ -207,4 +208,37 @@ func VerifC10_SharedTypeAfterFailure() {
 	x1, e1 := second.Example()
 	x2, e2 := ref.Example()
 	zzverif.Assert(string(x1) == string(x2) && vErrCode(e1) == vErrCode(e2), "Example() of the second root does not depend on the failed first one")
+}
+
+// VerifC10_SharedParentType: ONE type object is inherited from by two schemas
+// under two names: what the first compiled schema reports about its inherited
+// properties does not change when the second one is compiled, and the type's
+// own properties are never marked as inherited.
+func VerifC10_SharedParentType() {
+	zzverif.Expect("compared")
+	d := string([]byte{zzverif.Digit("d")})
+	base := New("base", `{"id": `+d+`, "o": {"k": 1}, "l": [`+d+`]}`)
+	origin := func(s *JSchema) []string {
+		var out []string
+		if obj, ok := s.Inner.RootNode().(*ischema.ObjectNode); ok {
+			for i, c := range obj.Children() {
+				out = append(out, obj.Key(i).Key+"<"+c.InheritedFrom())
+			}
+		}
+		return out
+	}
+	a := New("a", "{ // {allOf: \"@base\"}\n  \"own\": 1\n}")
+	_ = a.AddType("@base", base)
+	zzverif.Assert(a.Check() == nil, "the first heir is accepted")
+	before := origin(a)
+	if zzverif.Bool("secondHeir") {
+		b := New("b", "{ // {allOf: \"@parent\"}\n  \"x\": 2\n}")
+		_ = b.AddType("@parent", base)
+		zzverif.Assert(b.Check() == nil, "the second heir is accepted")
+	} else {
+		_ = base.Check()
+	}
+	zzverif.Reach("compared")
+	zzverif.Assert(vSameStrings(origin(a), before), "the compiled first heir is not changed by a later compile that shares its parent type")
+	zzverif.Assert(vSameStrings(origin(base), []string{"id<", "o<", "l<"}), "the parent type's own properties are not marked as inherited")
 }
